@@ -30,7 +30,8 @@ type mnode struct {
 	sp     spec
 	hdr    *eth.Header
 	hash   string
-	prop   int // bor: key index of the proposer of the snapshot in force at this header (-1 unknown)
+	taint  bool // this header or an ancestor was stored although the model rejects it
+	prop   int  // bor: key index of the proposer of the snapshot in force at this header (-1 unknown)
 }
 
 type model struct {
